@@ -5,6 +5,9 @@ from; discovery and that verification never raise.
 E1: every small frame of DESIGN 3.1 x {rex off, on} x {constraints as dict,
 as .tdda file} x {verify_df, detect_df} x {repair on, off} on the REAL
 discover_df / verify_df / detect_df.
+E3 over one .tdda path (e3-path): the path is read, rewritten with the
+constraints of another frame and read again (path as str / pathlib.Path /
+relative, rewritten in place or replaced): verdicts as from a fresh state.
 E3: every sequence of <= D operations from {verify, verify(repair=False),
 detect(outpath), detect(in_place=True), re-discover} applied to the SAME
 frame object, every history rebuilt from scratch, oracle checked after every
@@ -94,7 +97,10 @@ class C01(Check):
             'tails, columns either side of max_punc_in_group=5, '
             'max_strings_in_group=10, MAX_VRLE_RANGE=2, MAX_GROUPS=99, '
             'do_all=100; options covered pairwise in quick, fully in '
-            'thorough) and, thorough, every ordered pair of 18 families x 2 '
+            'thorough); 2,188 run-length columns (one character out of 5 '
+            'repeated n times for every subset of >= 2 run lengths out of '
+            '0..4, x 2 prefixes x 7 suffixes, and two runs varying together) '
+            'and, thorough, every ordered pair of 18 families x 2 '
             'rows x 3-value sub-alphabets; each case runs 2 discoveries and '
             '16 verification pipelines. E3 cases = every one-column frame '
             '(0..2 rows quick, 0..3 thorough) x every sequence of D '
@@ -105,7 +111,14 @@ class C01(Check):
             'for all ordered family pairs x {new frame object, same object '
             'with replaced columns}, exchanged column types, category '
             'boundary; last frame discovered (rex on), verified from the '
-            'dict and detected from the .tdda file. non-trivial = at least '
+            'dict and detected from the .tdda file. E3 over one path = '
+            'every ordered pair of 18 families (earlier frame -> last frame, '
+            'same and different column name) under the plain spec, and the '
+            'ordered pairs of 6 core families x {str, Path, relative} for the '
+            'earlier read x the same for the last reads x {verify_df, '
+            'detect_df, DatasetConstraints(loadpath)} x {rewritten in place, '
+            'replaced}; differential against the fresh state on verdict '
+            'vectors, passes and failures. non-trivial = at least '
             'one constraint beyond `type` was discovered and verified')
     assumptions = [
         'pandas 3.0.6 / numpy 2.5; values outside the alphabets, > 4 rows '
@@ -123,7 +136,12 @@ class C01(Check):
         'an E1/E3 case the 18 calls / 25 sequences share one process, which '
         'is part of the (replayable) case; dependence on EARLIER FRAMES is '
         'explored explicitly by the e3-frames layer with a differential '
-        'oracle against the fresh state (history-dependent:<mode>:<what>)',
+        'oracle against the fresh state (history-dependent:<mode>:<what>); '
+        'dependence on EARLIER CONTENTS OF THE SAME .tdda PATH by the e3-path '
+        'layer (history-dependent:path-rewritten:<forms>:<rewrite mode>); '
+        'inside an E1 case the rex-off and the rex-on constraints are '
+        'written to the same path one after the other (verify_df gets it as '
+        'str, detect_df as pathlib.Path)',
     ]
 
     # ----------------------------------------------------------- enumeration
@@ -147,6 +165,13 @@ class C01(Check):
                                 'one, varying letters/digits, optional '
                                 'tails, columns either side of rexpy\'s size '
                                 'constants'),
+                    ('e1-runs', 'E1 (rex-on pipelines), one character '
+                                'repeated with every set of >= 2 run lengths '
+                                'out of 0..4 (digits, letters, punctuation, '
+                                'space) in front of nothing / a character '
+                                'sorting above or below it / the other '
+                                'alphanumeric class / punctuation, with and '
+                                'without a prefix; two runs varying together'),
                     ('e1-lb', 'E1 (all 8 rex-on pipelines), every whitespace '
                               '/ line-boundary character inside and at the '
                               'end of short values, of values with 96..102 '
@@ -165,13 +190,25 @@ class C01(Check):
                                   'object with replaced columns) goes '
                                   'through discovery, verify and detect in '
                                   'the same process: same verdicts as from '
-                                  'a fresh state')]
+                                  'a fresh state'),
+                    ('e3-path', 'E3 over one .tdda path: constraints of an '
+                                'earlier frame are written to the path and '
+                                'read (verify_df / detect_df / '
+                                'DatasetConstraints(loadpath)), the path is '
+                                'rewritten (in place / replaced) with the '
+                                'constraints of another frame, which is '
+                                'verified and detected against it; path '
+                                'given as str / pathlib.Path / relative: same '
+                                'verdicts as from a fresh state')]
         return [('e1-a', 'E1, one-column frames named "a", 0..4 rows for '
                          'alphabets <= 4, else 0..3'),
                 ('e1-tz', 'E1, tz-aware columns over the offset alphabet x '
                           '{us, ns}, 0..3 rows'),
                 ('e1-rexs', 'E1 (rex-on pipelines), structured strings with '
                             'ordered triples, object and categorical'),
+                ('e1-runs', 'E1 (rex-on pipelines), one repeated character, '
+                            'every set of run lengths out of 0..5, object '
+                            'and categorical'),
                 ('e1-lb', 'E1 (rex-on pipelines), line-boundary characters, '
                           'object and categorical'),
                 ('e1-nulls', 'E1, object columns with mixed kinds of null, '
@@ -179,6 +216,9 @@ class C01(Check):
                 ('e3-d2', 'E3, two-operation sequences, frames 0..3 rows'),
                 ('e3-frames', 'E3 over frames with the same column names '
                               '(one or two earlier frames, 22 families)'),
+                ('e3-path', 'E3 over one .tdda path rewritten between reads '
+                            '(22 families, full product of path forms x '
+                            'loaders x rewrite modes, two earlier frames)'),
                 ('e1-two', 'E1, two-column frames (ordered pairs of 18 '
                            'families, 2 rows, 3-value sub-alphabets, two '
                            'name pairs)'),
@@ -220,6 +260,25 @@ class C01(Check):
                         # (4 of the 8 pipelines); thorough runs all 8
                         c['pairwise'] = True
                     yield c
+        elif layer == 'e1-runs':
+            thorough = tier == 'thorough'
+            for fam in (['rexs', 'rexscat'] if thorough else ['rexs']):
+                for col in FA.run_length_columns(thorough, 'a', fam):
+                    c = {'mode': 'e1', 'frame': {'cols': [col]},
+                         'rex': [True]}
+                    if not thorough:
+                        c['pairwise'] = True
+                    yield c
+        elif layer == 'e3-path':
+            groups = {}
+            for h in FA.path_histories(tier == 'thorough'):
+                key = json.dumps([h['spec'], h['frame']], sort_keys=True)
+                if key not in groups:
+                    groups[key] = {'mode': 'ph', 'spec': h['spec'],
+                                   'frame': h['frame'], 'hists': []}
+                groups[key]['hists'].append(h['hist'])
+            for g in groups.values():
+                yield g
         elif layer == 'e1-lb':
             for fam in (['rexs', 'rexscat'] if tier == 'thorough'
                         else ['rexs']):
@@ -399,7 +458,7 @@ class C01(Check):
                 if kind == 'rex' and col is not None:
                     pats = [re.compile(r, re.UNICODE | re.DOTALL)
                             for r in fc['rex']]
-                    un = [s for s in col['v'] if s is not None
+                    un = [s for s in col['v'] if isinstance(s, str)
                           and not any(p.match(s) for p in pats)]
                     # `un` is computed with the documented flags (UNICODE |
                     # DOTALL): empty means the expressions do match the data
@@ -462,12 +521,17 @@ class C01(Check):
         wrote = False
         if os.path.exists(self.outpath):
             os.remove(self.outpath)
+        self.last_obs = None
         try:
             f = self.verify_df if fn == 'verify' else self.detect_df
             v = self.quiet(f, df, cons, **kw)
             R.ev()
+            self.last_obs = [fn, _j(v.passes), _j(v.failures), sorted(
+                (str(k), sorted(_j(dict(r)).items()))
+                for k, r in v.fields.items())]
         except Exception as e:
             R.ev()
+            self.last_obs = [fn, 'raises', type(e).__name__]
             R.out('%s-raises:%s' % (fn, type(e).__name__))
             R.viol('%s-raises:%s:%s' % (fn, type(e).__name__,
                                         self.col_tag(frame['cols'])),
@@ -520,7 +584,9 @@ class C01(Check):
                     for (route, fn, repair) in combos:
                         sub = {'rex': rex, 'route': route, 'fn': fn,
                                'repair': repair}
-                        cons = d if route == 'dict' else self.tddapath
+                        # the path as str (verify) / pathlib.Path (detect)
+                        cons = d if route == 'dict' else self.path_form(
+                            'str' if fn == 'verify' else 'Path')
                         kw = {'repair': repair}
                         if fn == 'detect':
                             kw['outpath'] = self.outpath
@@ -697,6 +763,129 @@ class C01(Check):
         R.nontrivial = True
         return R
 
+    # -------------------------------------------------- E3 over one path
+    def write_tdda(self, c, how='w'):
+        """The documented way: constraints.to_json() written by the caller;
+        'w' truncates the file in place, 'replace' moves a new file over
+        it (what an atomic writer does)."""
+        target = self.tddapath if how == 'w' else self.tddapath + '.new'
+        with open(target, 'w', encoding='utf-8') as f:
+            f.write(c.to_json())
+        if how != 'w':
+            os.replace(target, self.tddapath)
+
+    def path_form(self, form):
+        import pathlib
+        return {'str': self.tddapath, 'Path': pathlib.Path(self.tddapath),
+                'rel': os.path.basename(self.tddapath)}[form]
+
+    def child_path_ops(self, hist, frame, spec):
+        """In one process, ONE .tdda path: for every earlier frame discover
+        it, write its constraints to the path and read the path (verify_df,
+        detect_df or DatasetConstraints(loadpath=...)); then discover the
+        last frame, rewrite the path and verify + detect the last frame
+        against it.  -> (Res of the last frame's operations, observations
+        [fn, passes, failures, verdicts] of the two last calls)."""
+        from tdda.constraints.base import DatasetConstraints
+        os.chdir(self.sandbox)              # for the relative form
+        scratch = Res()
+        for fr in hist:
+            df = FA.build_frame(fr)
+            c, d = self.discover(scratch, fr, df, True, None)
+            if c is None:
+                continue
+            self.write_tdda(c, 'w')
+            p1 = self.path_form(spec['f1'])
+            if spec['first'] == 'load':
+                self.quiet(DatasetConstraints, loadpath=p1)
+                scratch.ev()
+            else:
+                kw = {'repair': True}
+                if spec['first'] == 'detect':
+                    kw['outpath'] = self.outpath
+                self.call(scratch, fr, df, d, p1, spec['first'], kw, None,
+                          {})
+        df = FA.build_frame(frame)
+        R = Res()
+        obs = []
+        sub = {'ops': 'last-frame'}
+        c, d = self.discover(R, frame, df, True, sub)
+        if c is not None:
+            if sum(len(fc) for fc in d['fields'].values()) > len(d['fields']):
+                R.nontrivial = True
+            extra = {'frame': FA.describe(frame), 'path': spec,
+                     'constraints': _j(d['fields'])}
+            self.write_tdda(c, spec['write'])
+            p2 = self.path_form(spec['f2'])
+            self.call(R, frame, df, d, p2, 'verify', {'repair': True},
+                      dict(sub, fn='verify'), extra)
+            obs.append(self.last_obs)
+            self.call(R, frame, df, d, p2, 'detect',
+                      {'repair': False, 'outpath': self.outpath},
+                      dict(sub, fn='detect'), extra)
+            obs.append(self.last_obs)
+        R.evals += scratch.evals
+        R.transitions += scratch.transitions
+        self.reset()
+        return R, obs
+
+    def run_path_histories(self, case):
+        """Differential: what verify_df / detect_df report for the last
+        frame against the rewritten path must be what they report when the
+        process has never read that path before."""
+        spec = case['spec']
+        fresh = self.in_child(self.child_path_ops, [], case['frame'], spec)
+        if isinstance(fresh, Res):          # tdda exception escaped
+            return fresh
+        R, fobs = fresh
+        fresh_sigs = set(v['sig'] for v in R.violations)
+        R.states = 1
+        tag = 'path-rewritten'
+        for i, hist in enumerate(case['hists']):
+            H = self.in_child(self.child_path_ops, hist, case['frame'], spec)
+            H, hobs = H if isinstance(H, tuple) else (H, None)
+            R.evals += H.evals
+            R.transitions += H.transitions
+            R.checked += H.checked
+            R.states += len(hist) + 1
+            hs = set(v['sig'] for v in H.violations)
+            same = hs == fresh_sigs and hobs == fobs
+            R.out('e3p:%s>%s:%s:%s:%s' % (
+                spec['f1'], spec['f2'], spec['first'], spec['write'],
+                'same-as-fresh' if same else 'differs'))
+            if same:
+                continue
+            d = {'history': [FA.describe(fr) for fr in hist],
+                 'frame': FA.describe(case['frame']), 'path': spec,
+                 'steps': 'for each earlier frame: discover_df(rex), write '
+                          'to_json() to P, %s reads P; then discover_df on '
+                          'the last frame, rewrite P (%s), verify_df(df, P), '
+                          'detect_df(df, P)' % (spec['first'], spec['write']),
+                 'from_fresh_state': sorted(fresh_sigs) or 'no violation',
+                 'after_history': sorted(hs) or 'no violation',
+                 'observed_after_history': hobs,
+                 'observed_from_fresh_state': fobs}
+            new = sorted(hs - fresh_sigs)
+            if new:
+                parts = new[0].split(':')
+                aspect = ':'.join(parts[:2] if parts[0] in (
+                    'fails-own', 'no-verdict') else parts[:1])
+            elif fresh_sigs - hs:
+                aspect = 'violation-disappears'
+            else:
+                aspect = 'verdicts-differ'
+            # the root cause lies in how the path is remembered, not in
+            # which constraint of the stale / mixed-up contents fails: the
+            # signature names the path forms and the rewrite mode only
+            d['first_difference'] = aspect
+            R.viol('history-dependent:%s:%s:%s' % (
+                tag, 'same-form' if spec['f1'] == spec['f2']
+                else '%s-then-%s' % (spec['f1'], spec['f2']),
+                'in-place' if spec['write'] == 'w' else 'replaced'),
+                'same-verdicts-as-from-fresh-state', d, {'history': i})
+        R.nontrivial = True
+        return R
+
     def in_child(self, fn, *args):
         try:
             return FF.run_fresh(fn, *args)
@@ -725,6 +914,8 @@ class C01(Check):
     def run_case(self, case):
         if case['mode'] == 'fh':
             return self.run_frame_histories(case)
+        if case['mode'] == 'ph':
+            return self.run_path_histories(case)
         return self.in_child(self.child_case, case)
 
 
